@@ -186,6 +186,68 @@ def h_nidq(H):
     S.explore(body)
 
 
+def replay_write_lists(vals, oid):
+    """real write -> read of integer lists with entries of every magnitude up to 1e15"""
+    d = tempfile.mkdtemp(prefix="c09_")
+    bad = []
+    try:
+        f = os.path.join(d, "x.meta")
+        for lst in ([20210802.0, 1234567.0], [0.0, 110884048.0], [1.0], [999999.0, 1000000.0, 123456789012345.0], [384.0, 0.0, 1.0]):
+            md = {"typeThis": "imec", "someList": lst, "nSavedChans": 385.0}
+            spikeglx.write_meta_data(md, f)
+            back = spikeglx.read_meta_data(f)
+            if back.get("someList") != (lst if len(lst) > 1 else lst[0]) and back.get("someList") != lst:
+                bad.append({"written": lst, "read_back": repr(back.get("someList"))[:80], "line": [ln for ln in open(f).read().splitlines() if ln.startswith("someList")]})
+    finally:
+        shutil.rmtree(d, ignore_errors=True)
+    return {"failed": bool(bad), "cases": bad[:3]}
+
+
+@harness(PROPERTY, "write_meta_data_lists", functions=["spikeglx:write_meta_data"], replay=replay_write_lists,
+         clause="writing it back: an integer list is written as the plain decimal digits of its entries separated by commas (the form the parser reads back as the same list), whatever their magnitude")
+def h_write_lists(H):
+    from pyvc import fsmodel
+    S = H.session("write_meta_data.lists")
+
+    def body(it):
+        fs_ = fsmodel.GhostFS()
+        it.session.ghost_fs = fs_
+        path = fsmodel.GhostPath(fs_, ("data",), "x.ap.meta")
+        i0, i1, i2 = z3.Ints("entry0 entry1 entry2")
+        it.ctx.assume(z3.And(i0 >= 0, i1 >= 0, i2 >= 0))
+        v0, v1, v2 = z3.ToReal(i0), z3.ToReal(i1), z3.ToReal(i2)        # the parser yields integer lists as whole floats
+        md = {"typeThis": "imec", "someList": [SV(v0), SV(v1), SV(v2)], "oneEntry": [SV(v0)]}
+        run_function(it, spikeglx.write_meta_data, [md, path])
+        files = getattr(it.session, "ghost_files", {}).get(path.key, [])
+        texts = [t for f in files for t in getattr(f, "texts", [])]
+        lines = {}
+        for t in texts:
+            parts = list(t.parts) if isinstance(t, models.SymStr) else [t]
+            # merge adjacent literal pieces
+            flat = []
+            for p_ in parts:
+                if isinstance(p_, str) and flat and isinstance(flat[-1], str):
+                    flat[-1] += p_
+                else:
+                    flat.append(p_)
+            if flat and isinstance(flat[0], str) and "=" in flat[0]:
+                lines[flat[0].split("=")[0]] = flat
+        it.ctx.oblige("write.lists.every_key_written_once", z3.BoolVal(sorted(lines) == sorted(md) and len(texts) == len(md)), "post", assume=False)
+
+        def is_digits_of(p_, v):
+            # the default text of an integer term equal to the entry: its decimal digits (str(int(v)), f"{int(v)}", f"{int(v):d}")
+            if isinstance(p_, tuple) and len(p_) == 3 and p_[0] == "format" and p_[1] in ("", "d"):
+                p_ = p_[2]
+            return isinstance(p_, SV) and z3.is_int(term(p_)) and it.ctx.entails(term(p_) == v)
+        for key, vs in (("someList", (i0, i1, i2)), ("oneEntry", (i0,))):
+            fl = lines.get(key, [])
+            want_len = 2 * len(vs) + 1          # 'key=' d0 ',' d1 ',' d2 '\n'
+            ok = len(fl) == want_len and fl[0] == key + "=" and fl[-1] == "\n" and all(fl[2 * j + 1 + 1] == "," for j in range(len(vs) - 1)) and all(is_digits_of(fl[2 * j + 1], v) for j, v in enumerate(vs))
+            it.ctx.oblige(f"write.lists.plain_digits.{key}", z3.BoolVal(bool(ok)), "post",
+                          "key=d0,d1,...: each entry as the decimal digits of its integer value (no rounding to significant digits, no exponent, no decimal point)", assume=False)
+    S.explore(body)
+
+
 @harness(PROPERTY, "derived_scalars", functions=["spikeglx:_get_type_from_meta", "spikeglx:_get_fs_from_meta", "spikeglx:_get_nchannels_from_meta",
                                                  "spikeglx:_get_sync_trace_indices_from_meta", "spikeglx:_get_analog_sync_trace_indices_from_meta",
                                                  "spikeglx:_get_neuropixel_version_from_meta", "spikeglx:_get_neuropixel_major_version_from_meta", "spikeglx:Reader.range_volts"],
